@@ -74,6 +74,21 @@ def gen(rng, tier):
                 cs.append(Case("serde_obj session %s %s %s %s" % (fmt, hx(pk), hx(sk), hx(rpk)), cls="obj/session/" + fmt))
                 cs.append(Case("serde_obj kdf %s %s %s" % (fmt, hx(key), hx(rbytes(rng, 8))), cls="obj/kdf/" + fmt))
                 cs.append(Case("serde_obj pwhash %s %s %s" % (fmt, hx(msg), hx(rbytes(rng, 16))), cls="obj/pwhash/" + fmt))
+    # the TEXT encoding of the password-hash object (`to_string` / `from_string`): parse → re-encode is the identity on canonical strings
+    # of both algorithms and any salt / hash length; the string of an object records the salt it holds, whatever Config::salt_length
+    # says; libsodium-made strings (both algorithms) re-encode to themselves
+    import pwfam
+    for st, alg, t, m, salt, h in pwfam.valid_strings(rng, 40 if tier == "quick" else 600):
+        cs.append(Case("pwhash_parse %s" % pwfam.shex(st), cls="pwhash-string/" + alg, expect="ok " + st, meta={"why": "parse then re-encode changed the string"}))
+    for sl, csl in ((17, 16), (24, 16), (32, 16), (20, 8), (16, 32), (8, 16), (64, 9), (16, 16)):
+        pwd, salt = rbytes(rng, 7), rbytes(rng, sl)
+        cs.append(Case("pwhash_obj 1 8192 32 %s %s %s %d" % (hx(pwd), hx(salt), hx(b"x"), csl), cls="pwhash-string/salt-vs-config",
+                       expect=(lambda a, sh=pwfam.b64(salt): " verify=okerr " in a and " rt " in a and ("$" + sh + "$") in a),
+                       meta={"why": "to_string of an object holding a %d-byte salt under Config::salt_length = %d" % (sl, csl)}))
+    for i in range(6):
+        pwd = rbytes(rng, i)
+        cs.append(Case("so_pwhash_str 2 %d %d %s %s" % (1 + i % 3, 8192 + 1024 * i, hx(pwd), hx(b"wrong")), cls="pwhash-string/libsodium-argon2id"))
+        cs.append(Case("so_pwhash_str 1 %d %d %s %s" % (3 + i % 2, 8192 + 1024 * i, hx(pwd), hx(b"wrong")), cls="pwhash-string/libsodium-argon2i"))
     # from_bytes / to_bytes with every container (the object-API ops of C01, incl. heap containers on nightly)
     for n in range(0, 34):
         key, nonce, msg = rbytes(rng, 32), rbytes(rng, 24), rbytes(rng, n)
